@@ -41,6 +41,7 @@ type vhTransport struct {
 	usedSymbolicCode bool
 	budget     int // number of produce requests whose outcome is nondeterministic (0 = all)
 	fixed      []int // optional scripted outcomes (by produce call index); beyond it outcomes are chosen
+	partsByTopic map[string]int // optional: partitions per topic (default: `partitions`)
 }
 
 func (t *vhTransport) RoundTrip(ctx context.Context, addr net.Addr, req Request) (Response, error) {
@@ -49,7 +50,11 @@ func (t *vhTransport) RoundTrip(ctx context.Context, addr net.Addr, req Request)
 		res := &meta.Response{}
 		for _, name := range r.TopicNames {
 			rt := meta.ResponseTopic{Name: name}
-			for p := 0; p < t.partitions; p++ {
+			np := t.partitions
+			if n, ok := t.partsByTopic[name]; ok {
+				np = n
+			}
+			for p := 0; p < np; p++ {
 				rt.Partitions = append(rt.Partitions, meta.ResponsePartition{PartitionIndex: int32(p)})
 			}
 			res.Topics = append(res.Topics, rt)
